@@ -1894,20 +1894,12 @@ def conv_snap(a, nucs, names):
     return out
 
 
-SYM_KEY = "converter-central-assembly-integrated-scaled-by-symmetry"
-
-
 def conv_check(ctx, c2, b0, S, D, names, arrays, sym=1.0):
     """the property's clauses for the parameters mapped from snapshot S (source of the mapping) onto D; sym: symmetry
     factor of the assembly's position (3 for the central assembly of a 1/3 core) in the build-a-new-core direction"""
     def int_fail(nm, p0, p1, key, clause):
-        if sym != 1.0:      # known finding: reported under its own key, a few times
-            ctx.count("integrated parameters of a central (symmetric) assembly scaled on conversion")
-            if ctx.hist["integrated parameters of a central (symmetric) assembly scaled on conversion"] <= 2:
-                ctx.fail(SYM_KEY, clause, {"assembly": c2.get("assembly"), "symmetry_factor": sym, "param": nm,
-                                           "scenario": c2.get("scenario")}, observed=p1, expected=p0)
-            return
-        ctx.fail(key, clause, dict(c2, param=nm), observed=p1, expected=p0)
+        # (the central assembly of a symmetric core is judged like every other one: repaired in /repo 36ead88)
+        ctx.fail(key, clause, dict(c2, param=nm, symmetry_factor=sym), observed=p1, expected=p0)
 
     for nm, k in names:
         if any(x[nm] is None for x in D):
